@@ -10,7 +10,7 @@ LIST="$@"
 ./bin/setup >/dev/null 2>&1
 for d in $LIST; do
   m=$(basename $d)
-  git -C "$REPO" checkout -- . 2>/dev/null
+  git -C "$REPO" checkout -- . 2>/dev/null; git -C "$REPO" clean -fdq src 2>/dev/null
   if ! git -C "$REPO" apply "$(pwd)/$d/patch.diff"; then echo "$m APPLY-FAILED" >> "$OUT"; continue; fi
   ALL="C01 C02 C03 C04 C05 C06 C07 C08 C09 C10 C11 C12 C13 C14 C15 C16"
   # MATRIX_OWN=1: only the check of the property the change was written against
@@ -21,6 +21,6 @@ for d in $LIST; do
     nf=$(echo "$o" | grep "^VIOLATION" | grep -c "no-failing-input-found")
     echo "$m $p rc=$rc violations=$v no_input=$nf" >> "$OUT"
   done
-  git -C "$REPO" checkout -- .
+  git -C "$REPO" checkout -- . && git -C "$REPO" clean -fdq src
 done
 echo done >> "$OUT"
